@@ -66,6 +66,7 @@ def _not_fresh(ctx: Ctx, fi: FunctionInfo, e: ast.expr, depth: int = 3) -> Optio
         if isinstance(g, ClassInfo):
             return None
         if isinstance(g, FunctionInfo) and depth > 0:
+            ctx.seen_through.add(g.name)  # this rule reads the helper's body itself: the helper is not an opaque construct for its verdict
             rets = [r for r in body_walk(g.node) if isinstance(r, ast.Return)]
             if not rets:
                 return f"{g.qualname}() returns nothing"
